@@ -371,3 +371,95 @@ Proof.
       apply existsb_exists. exists b. split; [exact Hb|].
       unfold in_block_b. apply andb_true_iff. lia.
 Qed.
+
+(* ------------------------------------------------------------------------
+   What is served for EVERY input (no ordering hypothesis at all): exactly the
+   prefix of the rows up to and including the first row whose seq is last_seq.
+   With strictly increasing seqs that prefix is everything (run_tiles); with
+   two rows under one seq = last_seq (a relay after a resurrecting merge) the
+   second one is never sent -- the exact boundary of the known finding
+   resurrect-duplicate-seq. *)
+Fixpoint upto (lseq : Z) (cs : list chg) : list chg :=
+  match cs with
+  | [] => []
+  | c :: cs' => if c_seq c =? lseq then [c] else c :: upto lseq cs'
+  end.
+
+Lemma take_upto limit lseq : forall rs size t r e,
+  take limit lseq rs size = (t, r, e) ->
+  match e with
+  | None => t = upto lseq rs
+  | Some _ => t ++ r = rs /\ upto lseq rs = t ++ upto lseq r /\ r <> []
+  end.
+Proof.
+  induction rs as [|c rs IH]; intros size t r e Ht.
+  - cbn in Ht. inversion Ht; subst. reflexivity.
+  - cbn [take] in Ht. cbn [upto].
+    destruct (c_seq c =? lseq) eqn:E1.
+    + inversion Ht; subst. reflexivity.
+    + destruct (limit <=? size + c_size c) eqn:E2.
+      * destruct rs as [|c' rs'].
+        -- inversion Ht; subst. reflexivity.
+        -- inversion Ht; subst. cbn [app]. repeat split; try reflexivity. discriminate.
+      * destruct (take limit lseq rs (size + c_size c)) as [[t' r'] e'] eqn:Hrec.
+        inversion Ht; subst. specialize (IH _ _ _ _ Hrec).
+        destruct e as [s|].
+        -- destruct IH as (H1 & H2 & H3). cbn [app]. rewrite H1, H2. repeat split; auto.
+        -- rewrite IH. reflexivity.
+Qed.
+
+Lemma run_serves_upto_aux : forall n cs, (length cs <= n)%nat ->
+  forall lims a last, (length cs < length lims)%nat ->
+  forall out stf, run lims (mkCur cs a last false) = (out, stf) ->
+  concat (map fst out) = upto last cs.
+Proof.
+  induction n as [|n IHn]; intros cs Hn lims a last Hl out stf Hrun.
+  - destruct cs; [|cbn in Hn; lia].
+    destruct lims as [|l lims]; [cbn in Hl; lia|].
+    cbn in Hrun. destruct lims; cbn in Hrun; inversion Hrun; subst; reflexivity.
+  - destruct lims as [|l lims]; [cbn in Hl; lia|].
+    cbn [run next done rest last_seq last_start] in Hrun.
+    destruct (take l last cs 0) as [[t r] e] eqn:Ht.
+    pose proof (take_upto _ _ _ _ _ _ _ Ht) as Hu.
+    destruct e as [s|].
+    + destruct Hu as (Hcat & Hup & Hne).
+      assert (length r < length cs)%nat as Hlen
+        by (eapply take_length; [exact Ht|discriminate]).
+      destruct (run lims (mkCur r (s + 1) last false)) as [chs stf'] eqn:Hrec.
+      inversion Hrun; subst out stf; clear Hrun.
+      assert (length r <= n)%nat as Hrn by lia.
+      assert (length r < length lims)%nat as Hrl by (cbn in Hl; lia).
+      specialize (IHn r Hrn lims (s + 1) last Hrl _ _ Hrec).
+      cbn [map concat fst]. rewrite IHn. symmetry. exact Hup.
+    + destruct lims as [|l' lims']; cbn in Hrun; inversion Hrun; subst; clear Hrun.
+      all: cbn [map concat fst]; apply app_nil_r.
+Qed.
+
+Lemma run_serves_upto cs start last lims out stf :
+  (length cs < length lims)%nat ->
+  run lims (start_cursor cs start last) = (out, stf) ->
+  concat (map fst out) = upto last cs.
+Proof. intros Hl Hrun. eapply run_serves_upto_aux; eauto. Qed.
+
+(* everything is served iff no row follows the first row carrying last_seq *)
+Lemma upto_all last cs :
+  upto last cs = cs <->
+  (forall pre c post, cs = pre ++ c :: post -> c_seq c = last -> post = []).
+Proof.
+  induction cs as [|c cs IH]; cbn [upto].
+  - split; [intros _ pre c post H; destruct pre; discriminate|reflexivity].
+  - destruct (c_seq c =? last) eqn:E.
+    + split.
+      * intros H. inversion H; subst. intros pre c' post Hc _.
+        destruct pre as [|p pre]; cbn in Hc; inversion Hc; subst; [reflexivity|].
+        destruct pre; discriminate.
+      * intros H. apply Z.eqb_eq in E. rewrite (H [] c cs eq_refl E). reflexivity.
+    + split.
+      * intros H. injection H as H'. intros pre c' post Hc Hs.
+        apply Z.eqb_neq in E.
+        destruct pre as [|p pre]; cbn in Hc; injection Hc as Hc1 Hc2.
+        -- rewrite Hc1 in E. contradiction.
+        -- exact (proj1 IH H' pre c' post Hc2 Hs).
+      * intros H. f_equal. apply IH. intros pre c' post Hc Hs.
+        apply (H (c :: pre) c' post); [cbn; rewrite Hc; reflexivity|exact Hs].
+Qed.
